@@ -47,7 +47,7 @@ def op_strategy(draw, kind):
         args = [name, draw(VAL)] if m == 'setattr' else [name]
     else:  # VCounter
         m = draw(st.sampled_from(['add', 'add', 'get', 'fail', 'echo', 'add_bad', 'managed']))
-        args = {'add': lambda: [draw(st.integers(-3, 3))], 'get': lambda: [], 'fail': lambda: [draw(st.sampled_from(['value', 'key', 'index', 'custom', 'attr', 'zero'])), draw(VAL)], 'echo': lambda: [draw(VAL)],
+        args = {'add': lambda: [draw(st.integers(-3, 3))], 'get': lambda: [], 'fail': lambda: [draw(st.sampled_from(['value', 'key', 'index', 'custom', 'attr', 'zero', 'eof', 'timeout', 'stopiter', 'oserror'])), draw(VAL)], 'echo': lambda: [draw(VAL)],
                 'add_bad': lambda: [draw(st.text(max_size=2))], 'managed': lambda: [draw(VALS), draw(VAL)]}[m]()
     return [m, args]
 
